@@ -146,9 +146,16 @@ package main
 //@   noframe
 
 //@ func (*Epoch) GetNodeByCid
+//@   # C03 (K1) call-site condition: a section fetched from the CAR on behalf of a CID request is always read WITH the
+//@   # wanted CID (the pointer handed down is non-nil and points to the requested CID), so parseNodeFromSection's
+//@   # comparison `gotCid == *wantedCid` guards every answer that comes from the index + CAR path.
+//@   fncall s.GetNodeByOffsetAndSize requires arg1 != nil && *arg1 == wantedCid
 //@   noframe
 
 //@ func (*Epoch) GetNodeByOffsetAndSize
+//@   # C03 (K1): the wanted CID is handed to the section readers unchanged
+//@   fncall readNodeFromReaderAtWithOffsetAndSize requires arg1 == wantedCid
+//@   fncall readNodeWithKnownSize requires arg1 == wantedCid
 //@   noframe
 
 //@ func (*Epoch) ReadAtFromCar
